@@ -241,6 +241,11 @@ impl UnixTerminal {
                     quits += 1;
                     send = self.stats.send;
                 }
+                // slow terminal is not a dead one, timeout ends the wait only
+                // if nothing has been accepted by the tty since the previous one
+                Ok(None) if !self.write_queue.is_empty() && send != self.stats.send => {
+                    send = self.stats.send;
+                }
                 Err(_) | Ok(Some(TerminalEvent::DeviceAttrs(_)) | None) => break,
                 _ => {}
             }
